@@ -6,10 +6,66 @@ Require Import Verif.Lib.Wire Verif.Lib.Text Verif.Lib.PathNorm Verif.Lib.C16Pos
                Verif.Gen.Facts_C16 Verif.Model.C16 Verif.Proofs.C16.
 Open Scope N_scope.
 
-(* _secure_path accepts a tuple iff no element is '', '.', '..' and none contains
-   '/' (= os.sep) or NUL; the accepted tuple is joined with '/' *)
+(* the regenerated constants the other theorems are stated over have the
+   values of the repaired tree: static_view does not decode request.path_info a
+   second time, the route remainder is DOTALL and anchored with \Z,
+   add_static_view creates the view with use_subpath=True and the remainder
+   is named as the traverser expects *)
+Theorem C16_facts_ok :
+  view_decodes_again = false /\ route_remainder_dotall = true /\ route_anchor_abs = true /\
+  static_use_subpath = true /\ static_route_star = traverser_subpath_key.
+Proof. exact facts_ok. Qed.
+Print Assumptions C16_facts_ok.
+
+(* _secure_path (over the regenerated insecure-element and invalid-character
+   sets) accepts a tuple iff no element is '', '.', '..' and none contains '/'
+   (= os.sep) or NUL; the accepted tuple is joined with '/' *)
 Theorem C16_secure_path_spec : forall t p,
   secure_path t = Some p <->
   Forall (fun s => s <> [] /\ s <> [dot] /\ s <> [dot; dot] /\ ~ In slash s /\ ~ In 0 s) t /\ p = join [slash] t.
 Proof. exact secure_path_spec. Qed.
 Print Assumptions C16_secure_path_spec.
+
+(* posixpath: for every absolute docroot r and all plain segments t,
+   normpath(join(normpath(r), '/'.join(t))) resolves to the components of r followed by t *)
+Theorem C16_normpath_under : forall r t,
+  startswith [slash] r = true -> Forall normal_seg t ->
+  exists comps, Forall normal_seg comps /\ os_resolve (normpath r) = comps /\
+    os_resolve (normpath (pjoin (normpath r) (join [slash] t))) = comps ++ t.
+Proof. exact normpath_under. Qed.
+Print Assumptions C16_normpath_under.
+
+(* containment (file-system roots): for every sequence of requests handled by one
+   view instance -- any request strings, any of the four mountings, any file
+   system, any Accept-Encoding answers, any filemap history -- every path
+   handed to os.stat / open is absolute, NUL-free, consists of plain names
+   only (no '.', '..') and is lexically the root or a path below it.
+   Hypotheses: the configured root is an absolute NUL-free path naming an
+   existing directory, index is a plain name, extensions contain no '/' *)
+Theorem C16_containment_fs : forall c fs rqs,
+  wf_fs c -> root_is_dir c fs ->
+  Forall (fun rl => contained c (snd rl) = true) (run_model c fs rqs).
+Proof. exact containment_fs. Qed.
+Print Assumptions C16_containment_fs.
+
+(* a 200 answer (fresh view instance): the body is the content of an existing
+   file p, the Content-Encoding label is p's encoding, the client accepts it
+   (identity always; a variant only if Accept-Encoding is present and allows
+   it), and p is a smallest acceptable existing candidate *)
+Theorem C16_variant_acceptable : forall c rq pi fs t body enc vary fm' log,
+  serve c rq pi fs [] t = ((R200 body enc vary, fm'), log) ->
+  exists name p,
+    let keyed := fst (sizes fs (fst (probe c fs (candidates c name)))) in
+    spec_acceptable rq enc = true /\
+    (exists sz, fs_stat fs p = Some (EFile sz body)) /\
+    exists k, In (k, (p, enc)) keyed /\ k = entry_size (fs_stat fs p) /\
+      forall k' f', In (k', f') keyed -> spec_acceptable rq (snd f') = true -> k <= k'.
+Proof. exact variant_acceptable. Qed.
+Print Assumptions C16_variant_acceptable.
+
+(* TODO (unproved): serves_designated_file -- forall c rq fs (wf, root a directory),
+   conforms (response of run_request) (spec_response c rq fs) = true.  The executable
+   [conforms]/[spec_response] are evaluated on every correspondence case for the model
+   (flag in the runner output) and for the implementation (spec_holds).
+   TODO (unproved): containment for package-relative roots (pkg_resources path join);
+   covered by the correspondence run only. *)
